@@ -6,8 +6,20 @@ set -u
 DEMO_FLAGS="${DEMO_FLAGS:-}"
 SRC="$1"; ID="$2"; shift 2; CHECKS="$*"
 export GOFLAGS=-mod=mod GOPROXY=off GOSUMDB=off GOTOOLCHAIN=local
+# base: the newest commit of /repo on which the patch applies (seeded changes were written against the HEAD of their day;
+# later fix: commits may touch the same lines)
+BASE=""
+for C in $(git -C /repo log --format=%H -30); do
+  T=$(mktemp -d /tmp/basechk-XXXXXX); rmdir "$T"
+  git -C /repo worktree add -q --detach "$T" "$C" 2>/dev/null || continue
+  if git -C "$T" apply --check "$SRC/patch.diff" 2>/dev/null; then BASE="$C"; fi
+  git -C /repo worktree remove --force "$T"
+  [ -n "$BASE" ] && break
+done
+[ -z "$BASE" ] && { echo "patch applies to none of the last 30 commits"; exit 2; }
+[ "$BASE" != "$(git -C /repo rev-parse HEAD)" ] && echo "note: patch no longer applies to HEAD; using base $(git -C /repo log --format=%h -1 $BASE) (newest commit it applies to)"
 WT=$(mktemp -d /tmp/confirm-XXXXXX); rmdir "$WT"
-git -C /repo worktree add -q --detach "$WT" HEAD || exit 2
+git -C /repo worktree add -q --detach "$WT" "$BASE" || exit 2
 cleanup() { git -C /repo worktree remove --force "$WT" 2>/dev/null; }
 trap cleanup EXIT
 cd "$WT"
